@@ -197,7 +197,7 @@ theorem mem_webLoop_tail (o : Oracles) (c : Cfg) (r : Rec) (next : Info) (fl : B
       | finish => simp at he
 
 /-- the events after the consultation of one loop iteration -/
-theorem mem_webLoop_cases (o : Oracles) (c : Cfg) (r : Rec) (next : Info) (redir : Bool)
+theorem mem_webLoop_cases (o : Oracles) (c : Cfg) (hv : c.virtual = false) (r : Rec) (next : Info) (redir : Bool)
     (rob : RobotsOutcome) (resps : List Resp) (ev : Ev)
     (hev : ev ∈ webLoop o c r next redir rob resps) :
     (consultOk o c.fs next r (c.strongRedirects && redir) = false ∧ ev = .skip) ∨
@@ -207,6 +207,7 @@ theorem mem_webLoop_cases (o : Oracles) (c : Cfg) (r : Rec) (next : Info) (redir
        (∃ t rb rest, resps = .redirect t rb :: rest ∧ ev ∈ webLoop o c r t true rb rest) ∨
        (∃ rest, resps = .retrySame :: rest ∧ ev ∈ webLoop o c r next false (.cached true) rest))) := by
   unfold webLoop at hev
+  simp only [checkSubsequent, hv, Bool.false_eq_true, ↓reduceIte] at hev
   by_cases hc : consultOk o c.fs next r (c.strongRedirects && redir) = true
   · right
     refine ⟨hc, ?_⟩
@@ -226,13 +227,13 @@ theorem mem_webLoop_cases (o : Oracles) (c : Cfg) (r : Rec) (next : Info) (redir
     simp [hc] at hev
     exact ⟨hc, hev⟩
 
-theorem webLoop_guarded (o : Oracles) (c : Cfg) (r : Rec) (resps : List Resp) :
+theorem webLoop_guarded (o : Oracles) (c : Cfg) (hv : c.virtual = false) (r : Rec) (resps : List Resp) :
     ∀ (next : Info) (redir : Bool) (rob : RobotsOutcome),
       ∀ ev ∈ webLoop o c r next redir rob resps, Guarded o c r ev := by
   induction resps with
   | nil =>
     intro next redir rob ev hev
-    rcases mem_webLoop_cases o c r next redir rob [] ev hev with ⟨_, rfl⟩ | ⟨hc, h⟩
+    rcases mem_webLoop_cases o c hv r next redir rob [] ev hev with ⟨_, rfl⟩ | ⟨hc, h⟩
     · trivial
     · rcases h with ⟨rfl, _, hr⟩ | rfl | rfl | ⟨_, _, _, h, _⟩ | ⟨_, h, _⟩
       · exact ⟨hr, _, hc⟩
@@ -242,7 +243,7 @@ theorem webLoop_guarded (o : Oracles) (c : Cfg) (r : Rec) (resps : List Resp) :
       · simp at h
   | cons x rest ih =>
     intro next redir rob ev hev
-    rcases mem_webLoop_cases o c r next redir rob (x :: rest) ev hev with ⟨_, rfl⟩ | ⟨hc, h⟩
+    rcases mem_webLoop_cases o c hv r next redir rob (x :: rest) ev hev with ⟨_, rfl⟩ | ⟨hc, h⟩
     · trivial
     · rcases h with ⟨rfl, _, hr⟩ | rfl | rfl | ⟨t, rb, rest', h, hm⟩ | ⟨rest', h, hm⟩
       · exact ⟨hr, _, hc⟩
@@ -256,7 +257,7 @@ theorem webLoop_guarded (o : Oracles) (c : Cfg) (r : Rec) (resps : List Resp) :
         exact ih next false _ ev hm
 
 /-- membership in a whole session trace: the initial gate, or the loop -/
-theorem mem_webProcess_cases (o : Oracles) (c : Cfg) (r : Rec) (u0 : Info) (rob : RobotsOutcome)
+theorem mem_webProcess_cases (o : Oracles) (c : Cfg) (hv : c.virtual = false) (r : Rec) (u0 : Info) (rob : RobotsOutcome)
     (resps : List Resp) (ev : Ev) (hev : ev ∈ webProcess o c r u0 rob resps) :
     ev = .skip ∨
     (ev = .robotsTxt u0 ∧ c.robots = true ∧ consultOk o c.fs u0 r false = true) ∨
@@ -278,26 +279,26 @@ record, start URL, robots outcomes and every sequence of server answers
 (redirect targets chosen by the adversary): each event the session emits is
 a robots.txt fetch for the origin of a URL that `consult_filters` accepted at
 that moment, or a request for a URL that `consult_filters` accepted at that moment. -/
-theorem web_requests_guarded (o : Oracles) (c : Cfg) (r : Rec) (u0 : Info) (rob : RobotsOutcome)
+theorem web_requests_guarded (o : Oracles) (c : Cfg) (hv : c.virtual = false) (r : Rec) (u0 : Info) (rob : RobotsOutcome)
     (resps : List Resp) :
     ∀ ev ∈ webProcess o c r u0 rob resps, Guarded o c r ev := by
   intro ev hev
-  rcases mem_webProcess_cases o c r u0 rob resps ev hev with rfl | ⟨rfl, hr, hv⟩ | h
+  rcases mem_webProcess_cases o c hv r u0 rob resps ev hev with rfl | ⟨rfl, hr, hv⟩ | h
   · trivial
   · exact ⟨hr, false, hv⟩
-  · exact webLoop_guarded o c r resps u0 false _ ev h
+  · exact webLoop_guarded o c hv r resps u0 false _ ev h
 
 /-- The waiver flag is only ever raised for the target of a redirect the server
 sent in this session, and only with strong redirects enabled; the item URL
 itself is always consulted without it. -/
-theorem webLoop_flag_only_for_redirect_targets (o : Oracles) (c : Cfg) (r : Rec) (resps : List Resp) :
+theorem webLoop_flag_only_for_redirect_targets (o : Oracles) (c : Cfg) (hv : c.virtual = false) (r : Rec) (resps : List Resp) :
     ∀ (next : Info) (redir : Bool) (rob : RobotsOutcome) (u : Info),
       Ev.request u true ∈ webLoop o c r next redir rob resps →
       c.strongRedirects = true ∧ ((redir = true ∧ u = next) ∨ ∃ rb, Resp.redirect u rb ∈ resps) := by
   induction resps with
   | nil =>
     intro next redir rob u hev
-    rcases mem_webLoop_cases o c r next redir rob [] _ hev with ⟨_, h⟩ | ⟨_, h⟩
+    rcases mem_webLoop_cases o c hv r next redir rob [] _ hev with ⟨_, h⟩ | ⟨_, h⟩
     · simp at h
     · rcases h with ⟨h, _⟩ | h | h | ⟨_, _, _, h, _⟩ | ⟨_, h, _⟩
       · simp at h
@@ -311,7 +312,7 @@ theorem webLoop_flag_only_for_redirect_targets (o : Oracles) (c : Cfg) (r : Rec)
       · simp at h
   | cons x rest ih =>
     intro next redir rob u hev
-    rcases mem_webLoop_cases o c r next redir rob (x :: rest) _ hev with ⟨_, h⟩ | ⟨_, h⟩
+    rcases mem_webLoop_cases o c hv r next redir rob (x :: rest) _ hev with ⟨_, h⟩ | ⟨_, h⟩
     · simp at h
     · rcases h with ⟨h, _⟩ | h | h | ⟨t, rb, rest', h, hm⟩ | ⟨rest', h, hm⟩
       · simp at h
@@ -339,14 +340,14 @@ theorem webLoop_flag_only_for_redirect_targets (o : Oracles) (c : Cfg) (r : Rec)
 /-- **robots.txt is fetched only for an origin being visited**: inside the loop only
 for the target of a redirect the server sent (and that target passed the consultation,
 `web_requests_guarded`); for the whole session additionally for the item URL. -/
-theorem webLoop_robots_only_for_redirect_targets (o : Oracles) (c : Cfg) (r : Rec) (resps : List Resp) :
+theorem webLoop_robots_only_for_redirect_targets (o : Oracles) (c : Cfg) (hv : c.virtual = false) (r : Rec) (resps : List Resp) :
     ∀ (next : Info) (redir : Bool) (rob : RobotsOutcome) (u : Info),
       Ev.robotsTxt u ∈ webLoop o c r next redir rob resps →
       (redir = true ∧ u = next) ∨ ∃ rb, Resp.redirect u rb ∈ resps := by
   induction resps with
   | nil =>
     intro next redir rob u hev
-    rcases mem_webLoop_cases o c r next redir rob [] _ hev with ⟨_, h⟩ | ⟨_, h⟩
+    rcases mem_webLoop_cases o c hv r next redir rob [] _ hev with ⟨_, h⟩ | ⟨_, h⟩
     · simp at h
     · rcases h with ⟨h, hr, _⟩ | h | h | ⟨_, _, _, h, _⟩ | ⟨_, h, _⟩
       · simp only [Ev.robotsTxt.injEq] at h
@@ -357,7 +358,7 @@ theorem webLoop_robots_only_for_redirect_targets (o : Oracles) (c : Cfg) (r : Re
       · simp at h
   | cons x rest ih =>
     intro next redir rob u hev
-    rcases mem_webLoop_cases o c r next redir rob (x :: rest) _ hev with ⟨_, h⟩ | ⟨_, h⟩
+    rcases mem_webLoop_cases o c hv r next redir rob (x :: rest) _ hev with ⟨_, h⟩ | ⟨_, h⟩
     · simp at h
     · rcases h with ⟨h, hr, _⟩ | h | h | ⟨t, rb, rest', h, hm⟩ | ⟨rest', h, hm⟩
       · simp only [Ev.robotsTxt.injEq] at h
@@ -377,17 +378,17 @@ theorem webLoop_robots_only_for_redirect_targets (o : Oracles) (c : Cfg) (r : Re
         · simp at hf
         · exact ⟨rb', by simp [h]⟩
 
-theorem web_robots_only_for_visited_origins (o : Oracles) (c : Cfg) (r : Rec) (u0 : Info)
+theorem web_robots_only_for_visited_origins (o : Oracles) (c : Cfg) (hv : c.virtual = false) (r : Rec) (u0 : Info)
     (rob : RobotsOutcome) (resps : List Resp) (u : Info)
     (h : Ev.robotsTxt u ∈ webProcess o c r u0 rob resps) :
     c.robots = true ∧ (∃ red, consultOk o c.fs u r red = true) ∧
       (u = u0 ∨ ∃ rb, Resp.redirect u rb ∈ resps) := by
-  have hg := web_requests_guarded o c r u0 rob resps _ h
+  have hg := web_requests_guarded o c hv r u0 rob resps _ h
   refine ⟨hg.1, hg.2, ?_⟩
-  rcases mem_webProcess_cases o c r u0 rob resps _ h with h | ⟨h, _, _⟩ | h
+  rcases mem_webProcess_cases o c hv r u0 rob resps _ h with h | ⟨h, _, _⟩ | h
   · simp at h
   · simp only [Ev.robotsTxt.injEq] at h; exact Or.inl h
-  · rcases webLoop_robots_only_for_redirect_targets o c r resps u0 false _ u h with ⟨hf, _⟩ | h
+  · rcases webLoop_robots_only_for_redirect_targets o c hv r resps u0 false _ u h with ⟨hf, _⟩ | h
     · simp at hf
     · exact Or.inr h
 
@@ -396,23 +397,23 @@ session requests passes every configured filter — except that the target of a
 redirect sent by the server may, with strong redirects enabled, fail exactly
 one filter, which is then a span-hosts filter.  (robots.txt fetches are the
 other documented exception, see `web_robots_only_for_visited_origins`.) -/
-theorem web_requests_in_scope (o : Oracles) (c : Cfg) (r : Rec) (u0 : Info) (rob : RobotsOutcome)
+theorem web_requests_in_scope (o : Oracles) (c : Cfg) (hv : c.virtual = false) (r : Rec) (u0 : Info) (rob : RobotsOutcome)
     (resps : List Resp) (u : Info) (red : Bool)
     (h : Ev.request u red ∈ webProcess o c r u0 rob resps) :
     (c.fs.all (fun f => f.test o u r) = true) ∨
     (red = true ∧ c.strongRedirects = true ∧ (∃ rb, Resp.redirect u rb ∈ resps) ∧
       ∃ f, (testInfo o c.fs u r).failed = [f] ∧ f.isSpanHosts = true) := by
-  have hg : consultOk o c.fs u r red = true := web_requests_guarded o c r u0 rob resps _ h
+  have hg : consultOk o c.fs u r red = true := web_requests_guarded o c hv r u0 rob resps _ h
   rcases waiver_only_span_hosts o c.fs u r red hg with hv | ⟨hr, hf⟩
   · left; rw [← verdict_is_conjunction]; exact hv
   · right
     subst hr
     have hloop : Ev.request u true ∈ webLoop o c r u0 false (.cached true) resps := by
-      rcases mem_webProcess_cases o c r u0 rob resps _ h with h | ⟨h, _⟩ | h
+      rcases mem_webProcess_cases o c hv r u0 rob resps _ h with h | ⟨h, _⟩ | h
       · simp at h
       · simp at h
       · exact h
-    obtain ⟨hs, ht⟩ := webLoop_flag_only_for_redirect_targets o c r resps u0 false _ u hloop
+    obtain ⟨hs, ht⟩ := webLoop_flag_only_for_redirect_targets o c hv r resps u0 false _ u hloop
     rcases ht with ⟨hfalse, _⟩ | ht
     · simp at hfalse
     · exact ⟨rfl, hs, ht, hf⟩
@@ -621,6 +622,24 @@ theorem extra_urls_need_recursion (o : Oracles) (fs : List Filter) (pq : Bool) (
     have := (waiver_others_pass o fs v p.1 red hc _ hrec hfail).2
     simp [Filter.isSpanHosts] at this
 
+/-! ### is_virtual and the try counter -/
+
+/-- With a truthy `is_virtual` every in-loop check says "fetch": the guard theorems above are about
+ordinary crawl items (`c.virtual = false`, monitored on the real `ItemSession` on every run). -/
+theorem virtual_item_waives_everything (o : Oracles) (c : Cfg) (hv : c.virtual = true) (u : Info) (r : Rec) (red : Bool) :
+    checkSubsequent o c u r red = true := by simp [checkSubsequent, hv]
+
+theorem tryCountAfter_eq (n : Nat) : tryCountAfter n = n := by
+  induction n with
+  | zero => rfl
+  | succ n ih => simp [tryCountAfter, checkInTryCount, ih]
+
+/-- **the retry limit counts visits**: after `n` counted visits of a URL the stored try count is `n`, so
+`TriesFilter(m)` (m > 0) accepts the next visit exactly when fewer than `m` visits were made. -/
+theorem tries_filter_counts_visits (o : Oracles) (m n : Nat) (u : Info) (r : Rec) (hm : m ≠ 0) :
+    (Filter.tries m).test o u { r with tryCount := tryCountAfter n } = decide (n < m) := by
+  simp [Filter.test, tryCountAfter_eq, hm]
+
 /-! ### comma separated option values -/
 
 theorem head_dropWhile_not {α} (p : α → Bool) (l : List α) (a : α)
@@ -730,21 +749,24 @@ example : (consult o0 fs0 uB r0 false).verdict = false := by decide
 -- a second failing rule (retry limit reached): no waiver
 example : (consult o0 fs1 uB { r0 with tryCount := 1 } true).verdict = false := by decide
 -- web sessions: strong redirects on / off
-example : webProcess o0 ⟨fs0, true, false⟩ r0 uA (.cached true) [.redirect uB (.fetched true), .finish]
+example : webProcess o0 ⟨fs0, true, false, false⟩ r0 uA (.cached true) [.redirect uB (.fetched true), .finish]
     = [.request uA false, .request uB true] := by decide
-example : webProcess o0 ⟨fs0, false, false⟩ r0 uA (.cached true) [.redirect uB (.fetched true), .finish]
+example : webProcess o0 ⟨fs0, false, false, false⟩ r0 uA (.cached true) [.redirect uB (.fetched true), .finish]
     = [.request uA false, .skip] := by decide
 -- robots.txt of the redirect target's origin is consulted after the filters accepted the target
-example : webProcess o0 ⟨fs0, true, true⟩ r0 uA (.fetched true) [.redirect uB (.fetched true), .finish]
+example : webProcess o0 ⟨fs0, true, true, false⟩ r0 uA (.fetched true) [.redirect uB (.fetched true), .finish]
     = [.robotsTxt uA, .request uA false, .robotsTxt uB, .request uB true] := by decide
-example : webProcess o0 ⟨fs0, true, true⟩ r0 uA (.cached true) [.redirect uB (.fetched false), .finish]
+example : webProcess o0 ⟨fs0, true, true, false⟩ r0 uA (.cached true) [.redirect uB (.fetched false), .finish]
     = [.request uA false, .robotsTxt uB, .skip] := by decide
 -- ... and never for a target the filters refused
-example : webProcess o0 ⟨fs0, false, true⟩ r0 uA (.cached true) [.redirect uB (.fetched true), .finish]
+example : webProcess o0 ⟨fs0, false, true, false⟩ r0 uA (.cached true) [.redirect uB (.fetched true), .finish]
     = [.request uA false, .skip] := by decide
-example : webProcess o0 ⟨fs0, true, true⟩ r0 uA (.fetched true) [.finish]
+example : webProcess o0 ⟨fs0, true, true, false⟩ r0 uA (.fetched true) [.finish]
     = [.robotsTxt uA, .request uA false] := by decide
-example : webProcess o0 ⟨fs0, true, true⟩ r0 uB (.fetched true) [.finish] = [.skip] := by decide
+example : webProcess o0 ⟨fs0, true, true, false⟩ r0 uB (.fetched true) [.finish] = [.skip] := by decide
+-- a truthy is_virtual (a bound method instead of a property, say) lets a refused redirect target through
+example : webProcess o0 ⟨fs0, false, false, true⟩ r0 uA (.cached true) [.redirect uB (.fetched true), .finish]
+    = [.request uA false, .request uB false] := by decide
 -- ftp sessions: the parent probe is made when in scope, dropped when the directory URL is rejected
 example : ftpProcess o0 fs0 r0 fFile (.probe fDir none) none = [.request fDir false, .request fFile false] := by decide
 example : ftpProcess oSlash fs2 r0 fFile (.probe fDir none) none = [.request fFile false] := by decide
